@@ -125,6 +125,8 @@ theorem iterAfterBody_writer (rb : Res) (h : rb.st.w.failed = true → rb.err = 
     simp only
     exact okCase hnf
 
+theorem clrErrIf_w (b : Bool) (s : St) : (clrErrIf b s).w = s.w := by unfold clrErrIf; split <;> rfl
+
 theorem sepWrite_good (n : Nat) (sep : Bytes) (s : St) : Good s (sepWrite n sep s) := by
   unfold sepWrite
   split
@@ -160,15 +162,18 @@ theorem cloopLoop_good (run : St → Res) (hrun : ∀ s, Good s (run s)) (ls : C
           simp
         | none =>
           simp only [hre] at hf ⊢
-          have hrsf : rs.st.w.failed = false := grs.notfailed hs1 (by rw [hre]; simp)
-          have hin : ({ rs.st with c := { rs.st.c with chQB := true } } : St).w.failed = false := hrsf
-          have grb := hrun { rs.st with c := { rs.st.c with chQB := true } }
-          generalize hrb0 : run { rs.st with c := { rs.st.c with chQB := true } } = rb0 at hf ⊢ grb
-          have hgood : ({ rb0 with st := { rb0.st with c := { rb0.st.c with chQB := rs.st.c.chQB } } } : Res).st.w.failed = true →
-              ({ rb0 with st := { rb0.st with c := { rb0.st.c with chQB := rs.st.c.chQB } } } : Res).err = some Err.writer :=
+          have hrsf0 : rs.st.w.failed = false := grs.notfailed hs1 (by rw [hre]; simp)
+          have hw1 : (clrErrIf (decide (n > 0) && !ls.sep.isEmpty) rs.st).w = rs.st.w := clrErrIf_w _ _
+          generalize clrErrIf (decide (n > 0) && !ls.sep.isEmpty) rs.st = rs1 at hf ⊢ hw1
+          have hrsf : rs1.w.failed = false := by rw [hw1]; exact hrsf0
+          have hin : ({ rs1 with c := { rs1.c with chQB := true } } : St).w.failed = false := hrsf
+          have grb := hrun { rs1 with c := { rs1.c with chQB := true } }
+          generalize hrb0 : run { rs1 with c := { rs1.c with chQB := true } } = rb0 at hf ⊢ grb
+          have hgood : ({ rb0 with st := { rb0.st with c := { rb0.st.c with chQB := rs1.c.chQB } } } : Res).st.w.failed = true →
+              ({ rb0 with st := { rb0.st with c := { rb0.st.c with chQB := rs1.c.chQB } } } : Res).err = some Err.writer :=
             fun h => grb hin h
           obtain ⟨kA, kS, kN⟩ := iterAfterBody_writer _ hgood
-          generalize hio : iterAfterBody { rb0 with st := { rb0.st with c := { rb0.st.c with chQB := rs.st.c.chQB } } } = io at hf ⊢ kA kS kN
+          generalize hio : iterAfterBody { rb0 with st := { rb0.st with c := { rb0.st.c with chQB := rs1.c.chQB } } } = io at hf ⊢ kA kS kN
           by_cases hop : (ls.cntOp == Op.inc || ls.cntOp == Op.dec) = true
           · simp only [hop, if_true] at hf ⊢
             cases io with
